@@ -79,6 +79,9 @@ class Buffer:
         self.hot_count = len(self.hot)
         self.cold_count = len(self.cold)
         self._data_left_to_transfer = 0
+        # Data of a cold-to-hot move in flight that has not reached the hot
+        # buffer yet
+        self._data_left_to_receive = 0
         self.waiting_observation_list = []
         self.events = []
         self.threshold = 0.6
@@ -194,6 +197,8 @@ class Buffer:
             o.ingest_data_rate * o.duration - o.total_data_size
             for o in self.admitted_observations
         )
+        # ... and to an observation on its way back from the cold buffer
+        pending += self._data_left_to_receive
         if self.hot[b].total_capacity <= size:
             raise RuntimeError(
                 f"Observation data size is equal or greater than HotBuffer capacity."
@@ -427,6 +432,7 @@ class Buffer:
                 )
             if pbar:
                 pbar.update(n=self.cold[b].max_data_rate)
+            self._data_left_to_receive = data_left_to_transfer
             yield self.env.timeout(TIMESTEP)
         if pbar:
             pbar.close()
